@@ -1,12 +1,14 @@
 // C06: xlist.List equals an ideal sequence of node handles for every history.
 //
 // Engine E1. Two explorations on the real xlist.List:
-//   (a) closure: BFS with states de-duplicated on the list length (justified: after a step passed
-//       the full check, every pointer field of the list is determined by the handle sequence, so
-//       two states of equal length are isomorphic) — all transitions out of every length 0..N with
-//       EVERY choice of node/mark handle;
-//   (b) all operation sequences up to a depth, no de-duplication at all, so that the verdict does
-//       not rest on the isomorphism argument.
+//
+//	(a) closure: BFS with states de-duplicated on the list length (justified: after a step passed
+//	    the full check, every pointer field of the list is determined by the handle sequence, so
+//	    two states of equal length are isomorphic) — all transitions out of every length 0..N with
+//	    EVERY choice of node/mark handle;
+//	(b) all operation sequences up to a depth, no de-duplication at all, so that the verdict does
+//	    not rest on the isomorphism argument.
+//
 // Oracle after every operation: slice-of-handles model; forward walk from Front and backward walk
 // from Back visit exactly the model's handles (mirror images), Len agrees, first has no Prev, last
 // no Next, removed nodes have neither neighbour, every handle's Value untouched.
